@@ -75,7 +75,7 @@ impl Monitor for C05 {
             Tier::Thorough => 1 + 6 * (2 * SPAN as u64 + 1),
             Tier::Sanitizer => 2,
         };
-        vec![gen("arith", arith), gen("sessions", tier.pick(20_000, 400_000, 6))]
+        vec![gen("arith", arith), gen("sessions", tier.pick(20_000, 2_000_000, 6))]
     }
     fn rule(&self) -> String {
         "arith: verif_next_fcnt_down(last, wire) for all 2^16 wire values per `last` (quick: stride 97 within +-70000 of each of 6 boundaries plus the 129 values around each and None; thorough: every value within +-70000), compared with the statement's rule in 64-bit arithmetic. sessions: devices (nb/async/async+ClassC, 9 regions) with sessions created at chosen counters receive 40-120 frames (fresh gaps 1/2/16383/16384, 16385+, replay, stale, other-epoch, bit-flip, foreign key, oversized, MAC in FOpts/port 0, confirmed) in RX1/RX2/Class C; after every transaction the accepted counter, response, delivered payloads and MAC answers are compared with a reference acceptance model. Class = (start class, frame class, verdict, window kind, front-end).".into()
